@@ -60,6 +60,10 @@ impl Property for P {
         v.push(mk(3, 2, 0, 8196, 20000, false));
         v.push(mk(1, 2, 0, 9000, 20000, false));
         v.push(mk(5, 2, 0, 12345, 30000, false));
+        // asymmetric (OPN) chunks with a size limit: the body budget must count whole RSA blocks
+        v.push(mk(1, 2, 1, 8196, 9000, false));
+        v.push(mk(3, 1, 1, 8196, 20000, false));
+        v.push(mk(5, 2, 1, 9001, 7000, false));
         // empty filler; exactly one full chunk; one byte more
         v.push(mk(0, 0, 0, 8196, 0, true));
         v
@@ -79,7 +83,6 @@ impl Property for P {
             1 | 2 => (k * approx_body + r.below(120) as usize).saturating_sub(r.below(120) as usize),
             _ => k * approx_body + r.below(approx_body as u64) as usize,
         };
-        let len = if mty == 1 && policy != 0 { len % 6000 } else { len };
         let exact = (policy == 0 || (mode == 1 && mty != 1)) && r.chance(1, 3);
         let (m, lo) = if mty == 2 { (95, 32) } else { (256, 0) };
         Case { policy, mode, mty, max_chunk, chan_id: r.next() as u32, token_id: r.next() as u32,
